@@ -382,7 +382,11 @@ class Driver:
         env.update(FIXED_ENV)
         env.pop("JAWK_VF_MISSING", None)
         err = open(self.stderr_path, "ab") if self.stderr_path else subprocess.DEVNULL
-        limit = None
+        def limit():
+            # sanitizer engines need a huge address space: lift the worker's own soft cap again
+            import resource
+            hard = resource.getrlimit(resource.RLIMIT_AS)[1]
+            resource.setrlimit(resource.RLIMIT_AS, (hard, hard))
         if not self.wrapper and not self.cmd and "ASAN_OPTIONS" not in env:
             # an address-space cap for the plain driver: an expression or input that makes jawk allocate without bound must
             # end as an allocation failure (abort, attributed to the case in flight), not take the machine down
@@ -595,6 +599,14 @@ class Ctx:
 def _worker_entry(a):
     (modname, fname, prop, tier, seed, idx, nworkers, driver_path, hooks_on, deadline, params) = a
     ctx = Ctx(prop, tier, seed, idx, nworkers, driver_path, hooks_on, deadline, params)
+    try:
+        # a monitor that runs away (a workload far larger than intended) must end as a worker exception -> INCONCLUSIVE,
+        # not as an exhausted machine
+        import resource
+        cap = int(os.environ.get("VERIF_WORKER_MEM_MB", "3072")) * 1024 * 1024
+        resource.setrlimit(resource.RLIMIT_AS, (cap, resource.getrlimit(resource.RLIMIT_AS)[1]))   # soft limit only: children set their own
+    except Exception:
+        pass
     try:
         mod = __import__(modname, fromlist=["x"])
         getattr(mod, fname)(ctx)
